@@ -94,7 +94,9 @@ JSON JSON::parse(StringReader& r, bool disable_extensions) {
     }
 
   } else if (root_type_ch == '-' || root_type_ch == '+' || isdigit(root_type_ch)) {
-    int64_t int_data;
+    // The magnitude is accumulated in an unsigned integer so that INT64_MIN
+    // (whose magnitude is not representable as int64_t) parses without overflow
+    uint64_t int_data;
     double float_data;
     bool is_int = true;
 
@@ -165,7 +167,7 @@ JSON JSON::parse(StringReader& r, bool disable_extensions) {
     }
 
     if (is_int) {
-      ret = int_data;
+      ret = static_cast<int64_t>(int_data);
     } else {
       ret = float_data;
     }
@@ -322,7 +324,7 @@ string JSON::serialize(uint32_t options, size_t indent_level) const {
     case 2: { // int64_t
       int64_t v = this->as_int();
       if (options & SerializeOption::HEX_INTEGERS) {
-        return v < 0 ? string_printf("-0x%" PRIX64, -v) : string_printf("0x%" PRIX64, v);
+        return v < 0 ? string_printf("-0x%" PRIX64, 0 - static_cast<uint64_t>(v)) : string_printf("0x%" PRIX64, v);
       } else {
         return to_string(this->as_int());
       }
